@@ -69,3 +69,33 @@ def cmp (R : RepOps) (op : CmpOp) (radix : Nat) (x y : SNum) : Res Bool :=
     R.cmp op x'.rep y.rep
 
 end Cnl.Scaled
+
+namespace Cnl.Scaled
+
+/-- `set_digits_t<T, need>` on built-in integers (same table as `Elastic.setDigits`) -/
+def setDigitsInt (signed : Bool) (need : Nat) : Option IntTy :=
+  let dig (b : Nat) : Nat := if signed then b - 1 else b
+  if need ≤ dig 8 then some ⟨8, signed⟩
+  else if need ≤ dig 16 then some ⟨16, signed⟩
+  else if need ≤ dig 32 then some ⟨32, signed⟩
+  else if need ≤ dig 64 then some ⟨64, signed⟩
+  else if need ≤ dig 128 then some ⟨128, signed⟩
+  else none
+
+/-- `cnl::quotient(a, b)` for scaled integers over built-in representations, radix 2
+(`scaled_integer/named.h`, the fraction conversion of `scaled/convert_operator.h`,
+`fixed_width_scale.h`): the dividend is widened to `digits L + digits R` digits, shifted left by
+`digits R` and divided by the divisor's representation; result exponent `eL - eR - digits R`. -/
+def quotient (L : IntTy) (eL : Int) (R : IntTy) (eR : Int) (l r : Int) : Res (IntTy × Int × Int) :=
+  let T := usualArith L R
+  match setDigitsInt T.signed (max (L.digits + R.digits) T.digits) with
+  | none => .ill "quotient: digits exceed the widest integer"
+  | some D => do
+    let num := Cnl.convert D (L, l)
+    let p ← powerValueInt D R.digits 2
+    let scaled ← cBin .mul num p
+    let fixed := Cnl.convert D scaled        -- fixed_width_scale: static_cast<S>
+    let q ← cBin .div fixed (R, r)
+    pure (D, eL - eR - R.digits, (Cnl.convert D q).2)
+
+end Cnl.Scaled
